@@ -173,6 +173,7 @@ pub struct FqGroup {
     pub all_blank: bool,
 }
 
+/// single pass over the file from `p`
 pub fn fq_group(f: &[u8], p: usize) -> FqGroup {
     let n = f.len();
     let mut g = FqGroup {
@@ -182,35 +183,37 @@ pub fn fq_group(f: &[u8], p: usize) -> FqGroup {
         next: n,
         all_blank: true,
     };
-    let mut i = p;
-    let mut k = 0;
-    while k < 4 {
-        g.starts[k] = i;
-        let e = find_lf(f, i);
-        g.ends[k] = e;
-        if e < n {
-            g.lfs += 1;
-            i = e + 1;
-        } else {
-            i = n;
-            k += 1;
-            break;
-        }
-        k += 1;
+    if p <= n {
+        g.starts[0] = p;
     }
-    g.next = i;
-    // blank test over the whole rest of the file from p
-    let mut j = p;
-    while j < n {
-        let e = find_lf(f, j);
-        let tb = trim_cr_end(f, j, e);
-        if tb != j {
-            g.all_blank = false;
+    let mut cur_len = 0usize; // length of the current line so far
+    let mut cur_is_cr = false; // the current line is exactly "\r"
+    let mut i = p;
+    while i < n {
+        let c = f[i];
+        if c == LF {
+            if !(cur_len == 0 || (cur_len == 1 && cur_is_cr)) {
+                g.all_blank = false;
+            }
+            if g.lfs < 4 {
+                g.ends[g.lfs] = i;
+                if g.lfs < 3 {
+                    g.starts[g.lfs + 1] = i + 1;
+                } else {
+                    g.next = i + 1;
+                }
+                g.lfs += 1;
+            }
+            cur_len = 0;
+            cur_is_cr = false;
+        } else {
+            cur_is_cr = cur_len == 0 && c == CR;
+            cur_len += 1;
         }
-        if e >= n {
-            break;
-        }
-        j = e + 1;
+        i += 1;
+    }
+    if !(cur_len == 0 || (cur_len == 1 && cur_is_cr)) {
+        g.all_blank = false;
     }
     g
 }
@@ -270,8 +273,13 @@ pub fn fq_head(f: &[u8], g: &FqGroup) -> (usize, usize) {
 }
 
 pub fn fq_verdict(f: &[u8], p: usize) -> FqVerdict {
-    let n = f.len();
     let g = fq_group(f, p);
+    fq_verdict_g(f, p, &g)
+}
+
+/// verdict from an already computed group (no further pass over the file)
+pub fn fq_verdict_g(f: &[u8], p: usize, g: &FqGroup) -> FqVerdict {
+    let n = f.len();
     let mut v = FqVerdict {
         end: false,
         record: false,
@@ -320,8 +328,8 @@ pub fn fq_verdict(f: &[u8], p: usize) -> FqVerdict {
         broken = true;
     }
     // length rule
-    let (sa, sb) = fq_line(f, &g, 1);
-    let (qa, qb) = fq_line(f, &g, 3);
+    let (sa, sb) = fq_line(f, g, 1);
+    let (qa, qb) = fq_line(f, g, 3);
     let seq_crlf = g.ends[1] > g.starts[1] && f[g.ends[1] - 1] == CR;
     let qual_crlf = g.ends[3] > g.starts[3] && f[g.ends[3] - 1] == CR;
     let claimed = if fourth_unterminated {
@@ -345,4 +353,58 @@ pub fn fq_verdict(f: &[u8], p: usize) -> FqVerdict {
         v.record = true;
     }
     v
+}
+
+// ------------------------------------------------------------------------------------------
+// FASTA, single pass (used by the kernels)
+// ------------------------------------------------------------------------------------------
+
+pub const FA_MAXL: usize = 6;
+
+/// Line-end bookkeeping of the record whose '>' is at `h`, derived from the file only:
+/// `ends` = positions of every LF of the record region up to and including the one that ends
+/// the record, followed by `n` when the input ends without a final LF; `next` = offset of the
+/// next header, or `n` if there is none; `complete` = a next header exists.
+pub struct FaRec {
+    pub ends: [usize; FA_MAXL],
+    pub nends: usize,
+    pub next: usize,
+    pub complete: bool,
+    /// more line ends than FA_MAXL (outside the bound of the harness)
+    pub overflow: bool,
+}
+
+pub fn fa_record(f: &[u8], h: usize) -> FaRec {
+    let n = f.len();
+    let mut r = FaRec { ends: [0; FA_MAXL], nends: 0, next: n, complete: false, overflow: false };
+    let mut done = false;
+    let mut i = h;
+    while i < n {
+        if !done && f[i] == LF {
+            if r.nends < FA_MAXL {
+                r.ends[r.nends] = i;
+                r.nends += 1;
+            } else {
+                r.overflow = true;
+            }
+            if i + 1 == n {
+                done = true;
+            } else if f[i + 1] == b'>' {
+                r.next = i + 1;
+                r.complete = true;
+                done = true;
+            }
+        }
+        i += 1;
+    }
+    if !done {
+        // input ends without a line terminator: the end of the input closes the last line
+        if r.nends < FA_MAXL {
+            r.ends[r.nends] = n;
+            r.nends += 1;
+        } else {
+            r.overflow = true;
+        }
+    }
+    r
 }
